@@ -125,5 +125,6 @@ DispatchMostDerived == \A c \in Cls : Nearest(c) # 0 => \A d \in Chain(c) \cap d
 ParentIsProperAncestor == \A c \in Cls : ViaParent(c) # 0 => (ViaParent(c) \in Chain(c) /\ ViaParent(c) # NearestP(c))
 ChainVisitsEachDefinerOnce == \A c \in Cls : /\ {ChainDefs(c)[k] : k \in 1..Len(ChainDefs(c))} = Chain(c) \cap defs
                                              /\ Len(ChainDefs(c)) = Cardinality(Chain(c) \cap defs)
-LikeMonotone == \A a, b \in Cls : (SubC(a, b) /\ Like(b) /\ \A m \in Meths : prov[a][m] = -1) => Like(a)
+\* a class that defines none of the methods is like I exactly when its parent is
+LikeMonotone == \A c \in Cls : (ext[c] # 0 /\ \A m \in Meths : prov[c][m] = -1) => (Like(c) = Like(ext[c]))
 =============================================================================
